@@ -242,6 +242,7 @@ fn print_filler_or_fallbacks<W: Write>(
     stdout: &mut W,
     bof_idx: usize,
     opt: &StreamOpt,
+    num_fields: i32,
 ) -> Result<()> {
     for bof in opt.bounds[bof_idx..].iter() {
         let b = match bof {
@@ -252,8 +253,10 @@ fn print_filler_or_fallbacks<W: Write>(
             BoundOrFiller::Bound(b) => b,
         };
 
-        if b.r == Side::Continue {
-            break;
+        if b.r == Side::Continue && b.matches(num_fields).unwrap_or(false) {
+            // An open range that started printing is complete at the end of
+            // the line; what follows it can only be a filler.
+            continue;
         }
 
         let output = if b.fallback_oob.is_some() {
@@ -356,7 +359,7 @@ fn cut_bytes_stream<R: BufRead, W: Write>(
 
                 // EOL handling
                 if eol_reached {
-                    print_filler_or_fallbacks(stdout, bof_idx, opt)?;
+                    print_filler_or_fallbacks(stdout, bof_idx, opt, curr_field)?;
                     stdout.write_all(&[opt.eol.into()])?;
                     break;
                 }
@@ -364,7 +367,7 @@ fn cut_bytes_stream<R: BufRead, W: Write>(
                 // If we've found the last field we're interested in
                 if Side::Some(curr_field) == last_interesting_field {
                     // Print any remaining fillers (no fallbacks, since we're done with the fields)
-                    print_filler_or_fallbacks(stdout, bof_idx, opt)?;
+                    print_filler_or_fallbacks(stdout, bof_idx, opt, curr_field)?;
 
                     // Attempt to skip to EOL (if it's not in this chunk we'll wait for the next chunk)
                     skip_to_eol = true;
@@ -423,7 +426,7 @@ fn cut_bytes_stream<R: BufRead, W: Write>(
                     prev_chunk_may_be_truncated,
                     true,
                 )?;
-                print_filler_or_fallbacks(stdout, bof_idx, opt)?;
+                print_filler_or_fallbacks(stdout, bof_idx, opt, curr_field)?;
             }
             stdout.write_all(&[opt.eol.into()])?;
             break 'new_line;
